@@ -317,3 +317,93 @@ pub fn replay(path: &str) -> ! {
     }
     rep.finish()
 }
+
+// ---------------------------------------------------------------------------------------------
+// C19 on the staking keepers: the same history on two fresh Apps, interleaved; everything the
+// public API shows and the raw storage must be byte-identical at equal positions
+
+fn st_transcript(w: &mut StWorld, res: &Result<bool, String>) -> Value {
+    use cosmwasm_std::{Order, Storage};
+    let dump: Vec<Value> = w
+        .app
+        .storage()
+        .range(None, None, Order::Ascending)
+        .map(|(k, v)| json!([hex(&k), hex(&v)]))
+        .collect();
+    let names: Vec<String> = w.accts.keys().cloned().collect();
+    let bals: Vec<Value> = names
+        .iter()
+        .map(|n| {
+            #[allow(deprecated)]
+            let b = w.app.wrap().query_all_balances(w.addr(n)).unwrap_or_default();
+            json!([n, b.iter().map(|c| format!("{}{}", c.amount, c.denom)).collect::<Vec<_>>()])
+        })
+        .collect();
+    let dels: Vec<Value> = names
+        .iter()
+        .map(|n| {
+            let d = w.app.wrap().query_all_delegations(w.addr(n)).unwrap_or_default();
+            json!([n, d.iter().map(|x| format!("{}:{}", x.validator, x.amount)).collect::<Vec<_>>()])
+        })
+        .collect();
+    json!({"res": format!("{:?}", res), "storage": dump, "balances": bals, "delegations": dels})
+}
+
+pub fn twin(path: &str) -> ! {
+    use rand::rngs::StdRng;
+    use rand::{Rng, SeedableRng};
+    use std::hash::{Hash, Hasher};
+    let mut rep = Report::new("twin-staking");
+    let mut rng = StdRng::seed_from_u64(seed());
+    let mut digest: u64 = 0; // order-independent: sum of per-script hashes
+    for script in records(path) {
+        rep.scripts += 1;
+        let ops = script["ops"].as_array().cloned().unwrap_or_default();
+        let r = catch_unwind(AssertUnwindSafe(|| {
+            let mut f: Vec<String> = vec![];
+            let mut wa = StWorld::new(&script);
+            let mut wb = StWorld::new(&script);
+            let (mut ta, mut tb): (Vec<Value>, Vec<Value>) = (vec![], vec![]);
+            // a random interleaving of the two runs
+            while ta.len() < ops.len() || tb.len() < ops.len() {
+                let pick_a = if ta.len() >= ops.len() { false } else if tb.len() >= ops.len() { true } else { rng.gen_bool(0.5) };
+                let (wx, tx) = if pick_a { (&mut wa, &mut ta) } else { (&mut wb, &mut tb) };
+                let op = &ops[tx.len()];
+                let res = wx.apply(op, None);
+                let t = st_transcript(wx, &res);
+                tx.push(t);
+                let n = ta.len().min(tb.len());
+                if n > 0 && ta[n - 1] != tb[n - 1] {
+                    let (x, y) = (&ta[n - 1], &tb[n - 1]);
+                    let field = ["res", "balances", "delegations", "storage"].iter().find(|fld| x[**fld] != y[**fld]).copied().unwrap_or("?");
+                    f.push(format!("position {}: the two applications differ in {}: A = {} / B = {}", n, field,
+                                   x[field].to_string().chars().take(400).collect::<String>(),
+                                   y[field].to_string().chars().take(400).collect::<String>()));
+                    break;
+                }
+            }
+            (f, ta)
+        }));
+        let mut found = vec![];
+        match r {
+            Ok((f, ta)) => {
+                found.extend(f);
+                let mut h = std::collections::hash_map::DefaultHasher::new();
+                json!(ta).to_string().hash(&mut h);
+                digest = digest.wrapping_add(h.finish());
+            }
+            Err(_) => found.push("panic while stepping the two applications".to_string()),
+        }
+        rep.checks += 2 * ops.len() as u64;
+        if ops.len() >= 2 {
+            rep.nontrivial_hash(&json!(ops.iter().map(|o| json!([o["a"], o["d"], o["v"], o["amt"], o["f"]])).collect::<Vec<_>>()));
+        }
+        if !found.is_empty() {
+            rep.mismatch(&script, json!(found));
+        }
+        let compact: Vec<Value> = ops.iter().map(|o| json!([o["a"], o["d"], o["v"], o["amt"], o["f"], o["ok"]])).collect();
+        rep.sample(&json!({"ops": compact}));
+    }
+    rep.extra.insert("transcript_digest".into(), json!(format!("{:016x}", digest)));
+    rep.finish()
+}
